@@ -327,10 +327,11 @@ def ite(c, a, b):
 
 class SymInt:
     """Python-int semantics (unbounded) over a z3 Int term with a sound interval."""
-    __slots__ = ('e', 'lo', 'hi', 'bits', 'prov')
+    __slots__ = ('e', 'lo', 'hi', 'bits', 'prov', 'meta')
 
     def __init__(self, e, lo=None, hi=None, bits=None):
         self.e = e; self.lo = lo; self.hi = hi; self.prov = None
+        self.meta = None      # algebraic hints: 'lin' = (base, a, b) with self == a*base + b; 'comp'/'sdec' see pysym._dec_int
         self.bits = bits      # over-approximation of the set bits (only if lo >= 0)
 
     def conc(self):
@@ -343,22 +344,40 @@ class SymInt:
         return m if self.bits is None else (m & self.bits)
 
     # arithmetic
+    def _lin(self):
+        m = self.meta
+        return m['lin'] if m and 'lin' in m else (self, 1, 0)
+
     def __add__(self, o):
         o = lift(o)
         if o is None: return NotImplemented
         if o.conc() == 0: return self
-        return SymInt(self.e + o.e, _a(self.lo, o.lo), _a(self.hi, o.hi))
+        r = SymInt(self.e + o.e, _a(self.lo, o.lo), _a(self.hi, o.hi))
+        c = o.conc()
+        if c is not None:
+            y, a, b = self._lin(); r.meta = {'lin': (y, a, b + c)}
+        return r
     __radd__ = __add__
     def __sub__(self, o):
         o = lift(o)
         if o is None: return NotImplemented
         if o.conc() == 0: return self
-        return SymInt(self.e - o.e, _s(self.lo, o.hi), _s(self.hi, o.lo))
+        c = o.conc()
+        if c is not None:
+            y, a, b = self._lin()
+            if a == 1 and b - c == 0: return y
+        r = SymInt(self.e - o.e, _s(self.lo, o.hi), _s(self.hi, o.lo))
+        if c is not None: r.meta = {'lin': (y, a, b - c)}
+        return r
     def __rsub__(self, o):
         o = lift(o)
         if o is None: return NotImplemented
         return o.__sub__(self)
-    def __neg__(self): return SymInt(-self.e, _n(self.hi), _n(self.lo))
+    def __neg__(self):
+        y, a, b = self._lin()
+        if a == -1 and b == 0: return y
+        r = SymInt(-self.e, _n(self.hi), _n(self.lo)); r.meta = {'lin': (y, -a, -b)}
+        return r
     def __pos__(self): return self
     def __abs__(self): return ite(self < 0, -self, self)
     def __mul__(self, o):
@@ -375,7 +394,10 @@ class SymInt:
         k = o.conc()
         if k is not None and k > 0 and (k & (k - 1)) == 0 and self.maybe_bits() is not None:
             bits = self.maybe_bits() << (k.bit_length() - 1)
-        return SymInt(self.e * o.e, min(c), max(c), bits)
+        r = SymInt(self.e * o.e, min(c), max(c), bits)
+        if k is not None and k != 0:
+            y, a, b = self._lin(); r.meta = {'lin': (y, a * k, b * k)}
+        return r
     __rmul__ = __mul__
     def _divisor(self, o):
         o = lift(o)
@@ -387,6 +409,13 @@ class SymInt:
     def __floordiv__(self, o):
         k = self._divisor(o)
         if k is None: return NotImplemented
+        y, a, b = self._lin()
+        if a % k == 0 and b % k == 0 and (a != 1 or b != 0):
+            a2, b2 = a // k, b // k            # exact division of the linear form
+            if a2 == 1 and b2 == 0: return y
+            if a2 == -1 and b2 == 0: return -y
+            r = y * a2 + b2
+            return r
         if k < 0: return (-self) // (-k)
         if k == 1: return self
         return SymInt(self.e / k, None if self.lo is None else self.lo // k,
